@@ -153,10 +153,12 @@ struct Opts {
     /// rounds of "damage the restored tree, restore over it"
     ro: usize,
     /// witness switch: every round deletes and replaces all directories without a file or directory below them by files
-    /// (known defect: `restore --delete` removes the file but does not create the directory)
+    /// (defect repaired by f1ffc25: `restore --delete` removed the file but did not create the directory; the random
+    /// generator now replaces such directories too)
     rd: bool,
-    /// witness switch: trees with several names of one inode get their rounds too, without damage (known defect: a second
-    /// restore over restored hardlinks fails with `InputOutput`: the link exists already)
+    /// witness switch: trees with several names of one inode get their rounds WITHOUT damage (defect repaired by 3389229: a
+    /// second restore over restored hardlinks failed with `InputOutput`, the link existed already; without the switch such
+    /// trees are damaged and restored over like all others)
     hl: bool,
 }
 
@@ -637,12 +639,9 @@ fn verify<S: IndexedFull>(repo: &Repository<S>, root: &Node, exps: &[Exp], opts:
     // --- restore again over modified versions of the restored tree (every choice from the op line's seed)
     let hardlinks = exps.iter().any(|e| e.hl);
     for round in 0..opts.ro {
-        if hardlinks && !opts.hl {
-            break; // known defect, see `Opts::hl`
-        }
         let delete = opts.rd || rng.chance(1, 2);
         let verify_existing = rng.chance(1, 2);
-        let extras = if hardlinks { vec![] } else { mutate_restored(&dest_path, exps, &bounds_of, &mut rng, delete, verify_existing, opts.rd).map_err(|e| format!("err:mutate-restored:{:?}", e.kind()))? };
+        let extras = if hardlinks && opts.hl { vec![] } else { mutate_restored(&dest_path, exps, &bounds_of, &mut rng, delete, verify_existing, opts.rd).map_err(|e| format!("err:mutate-restored:{:?}", e.kind()))? };
         let ropts = RestoreOptions::default().delete(delete).verify_existing(verify_existing);
         restore_into(repo, root, &dest_path, ropts).map_err(|e| format!("oracle-fail:restore-over-existing-{e}:round{round}:delete={delete}:verify={verify_existing}"))?;
         let keep: &[Vec<u8>] = if delete { &[] } else { &extras };
@@ -822,7 +821,7 @@ fn mutate_restored(dest: &Path, exps: &[Exp], bounds_of: &BTreeMap<Vec<u8>, Vec<
                 } else if r == 0 {
                     std::fs::remove_dir_all(&p)?;
                     gone.push(e.rel.clone());
-                } else if r == 1 && delete && recreated {
+                } else if r == 1 && delete {
                     std::fs::remove_dir_all(&p)?;
                     std::fs::write(&p, b"was a directory")?;
                     gone.push(e.rel.clone());
